@@ -341,12 +341,17 @@ func runCase(r *core.Run, i int) {
 			case !res.Failed() && ocs[0].failed:
 				w.What = "violating statement accepted (model: " + ocs[0].class + ")"
 				w.Expected = modelTables(sc, h.st)
+				if mode := staleSelfRefScan(sc, h, st, fp); mode != "" {
+					w.What += " (multi-row DELETE with a WHERE clause on a table with a self-referencing key: " + mode + ")"
+					r.Violation("selfref-table-multirow-delete-where:"+mode, w)
+					return
+				}
 				r.Violation("violating-"+st.kind+"-accepted:"+ocs[0].class+":"+actions, w)
 				return
 			default:
 				w.What = "statement succeeded with contents different from the model"
 				w.Expected = modelTables(sc, ocs[0].st)
-				if mode := staleSelfRefScan(sc, h, st, ocs[0].st, obs); mode != "" {
+				if mode := staleSelfRefScan(sc, h, st, fp); mode != "" {
 					w.What += " (multi-row DELETE with a WHERE clause on a table with a self-referencing key: " + mode + ")"
 					r.Violation("selfref-table-multirow-delete-where:"+mode, w)
 					return
@@ -466,11 +471,12 @@ func ddlReject(r *core.Run) {
 	}
 }
 
-// staleSelfRefScan classifies the failure mode of known finding selfref-table-multirow-delete-where:
-// a DELETE ... WHERE selecting >= 2 rows of a table that has a self-referencing key, with checks
-// on, that succeeds but (a) leaves selected rows in place and/or (b) removes rows that neither the
-// WHERE clause nor a cascade selects — while every other table is as the model says.
-func staleSelfRefScan(sc *schema, h *hist, st *stmt, exp *mstate, obs [][][]string) string {
+// staleSelfRefScan is the matcher of known finding selfref-table-multirow-delete-where: a
+// DELETE ... WHERE selecting >= 2 rows of a table that has a self-referencing key, with checks on,
+// that succeeds, and whose observed effect on ALL tables is exactly the model's effect of deleting
+// a different set D of rows of that table (with all referential actions). D a proper subset of the
+// selected rows: "selected-rows-survive"; otherwise "unselected-rows-deleted".
+func staleSelfRefScan(sc *schema, h *hist, st *stmt, fp string) string {
 	if st.kind != "delete" || !h.checks || st.where.kind == "all" || targetCount(h.st, st) < 2 {
 		return ""
 	}
@@ -480,59 +486,69 @@ func staleSelfRefScan(sc *schema, h *hist, st *stmt, exp *mstate, obs [][][]stri
 			self = true
 		}
 	}
-	if !self {
+	rows := h.st.rows[st.t]
+	if !self || len(rows) > 10 {
 		return ""
 	}
-	for t := range sc.tabs {
-		if t != st.t && strings.Join(exp.lines(t), ";") != strings.Join(g.Lines(obs[t]), ";") {
-			// other tables differ: only allowed as a consequence (their rows reference rows of st.t); be strict
-			return ""
+	for mask := 0; mask < 1<<len(rows); mask++ {
+		var ids []int64
+		subset, same := true, true
+		for i, r := range rows {
+			in := mask&(1<<i) != 0
+			sel := st.where.eval(r.vals)
+			if in {
+				ids = append(ids, r.vals[0].Int64())
+				if !sel {
+					subset = false
+				}
+			}
+			if in != sel {
+				same = false
+			}
 		}
-	}
-	want := map[string]int{}
-	for _, l := range exp.lines(st.t) {
-		want[l]++
-	}
-	survive, lost := 0, 0
-	for _, l := range g.Lines(obs[st.t]) {
-		if want[l] > 0 {
-			want[l]--
-		} else {
-			survive++
+		if same {
+			continue
 		}
-	}
-	for _, n := range want {
-		lost += n
-	}
-	switch {
-	case survive > 0 && lost == 0:
-		return "selected-rows-survive"
-	case survive == 0 && lost > 0:
-		return "unselected-rows-deleted"
-	case survive > 0 && lost > 0:
-		return "selected-rows-survive+unselected-rows-deleted"
+		alt := &stmt{kind: "delete", t: st.t, where: pred{kind: "in", col: 0, vals: ids}}
+		for _, oc := range outcomes(sc, h.st, true, alt) {
+			if !oc.failed && oc.fp == "OK:"+fp {
+				if subset {
+					return "selected-rows-survive"
+				}
+				return "unselected-rows-deleted"
+			}
+		}
 	}
 	return ""
 }
 
-// pinned replays the minimal witnesses of the known findings on every run.
+// pinned replays the minimal witnesses of the known findings on every run. The engine's index scan
+// order is not deterministic, so the witness is tried on several fresh engines.
 func pinned(r *core.Run) {
-	e := core.NewEng("d")
-	defer e.Close()
-	s := e.NewSess()
 	setup := []string{
 		"CREATE TABLE t3 (id INT PRIMARY KEY, f1 INT, f5 INT, KEY (f1), CONSTRAINT fk6 FOREIGN KEY (f5) REFERENCES t3 (id) ON DELETE CASCADE)",
-		"INSERT INTO t3 VALUES (1,3,NULL),(2,3,NULL),(3,3,NULL),(4,3,NULL)",
+		"INSERT INTO t3 VALUES (1,3,NULL),(2,3,NULL),(3,3,NULL),(4,3,NULL),(5,3,NULL),(6,3,NULL),(7,3,NULL),(8,3,NULL)",
 		"DELETE FROM t3 WHERE f1 < 4",
 	}
-	for _, q := range setup {
-		s.MustExec(q)
+	fails := false
+	var left []string
+	for try := 0; try < 12 && !fails; try++ {
+		e := core.NewEng("d")
+		s := e.NewSess()
+		for _, q := range setup {
+			s.MustExec(q)
+		}
+		rows, _ := g.Scan(s, "t3", []string{"id", "f1", "f5"})
+		if len(rows) != 0 {
+			fails = true
+			left = g.Lines(rows)
+		}
+		e.Close()
 	}
-	rows, _ := g.Scan(s, "t3", []string{"id", "f1", "f5"})
 	r.Eval(1)
 	r.Pinned("selfref-table-multirow-delete-where:selected-rows-survive",
-		"DELETE ... WHERE <indexed column> on a table with a self-referencing foreign key leaves selected rows in place (4 rows with f1=3, DELETE WHERE f1 < 4 removes 3)",
-		len(rows) != 0, map[string]any{"setup": setup, "expected_rows": 0, "actual": g.Lines(rows)})
+		"DELETE ... WHERE <indexed column> on a table with a self-referencing foreign key leaves selected rows in place (8 rows with f1=3, DELETE WHERE f1 < 4 does not remove all)",
+		fails, map[string]any{"setup": setup, "expected_rows": 0, "actual": left})
 }
 
 var _ = rand.Int
